@@ -13,7 +13,7 @@ Line protocol of the C08 driver (all tokens are naturals unless said otherwise):
   rec      := cstep rf list<nat> trajNum list<job> steps  rf = 0 none | R+1
   rfile    := 0 | 1 | 2 | 3 rec
   disk     := list<(key fstate)> list<nat> garbled torn rfile rfile
-  cfg      := n deleteOld deleteAll variant clean          variant 0 asIs 1 repaired; clean = clean_data_file on restart
+  cfg      := n deleteOld deleteAll variant clean          variant 0 asIs 1 repaired 2 renamedOpen; clean = clean_data_file on restart
   mem      := cstep rf list<pinfo> trajNum list<(pn list<nat>)> list<job> steps
   acc      := pinfo cid list<(name cid)>
   choice   := list<acc> list<pinfo> list<job> inc halfRows halfTorn
@@ -103,7 +103,7 @@ def pDisk : P Disk := fun ts =>
 def pCfg : P Cfg := fun ts =>
   match pPair pNat (pPair pBool (pPair pBool (pPair pNat pBool))) ts with
   | some ((n, a, b, v, cl), r) =>
-    some ({ n := n, deleteOld := a, deleteAll := b, variant := if v = 0 then .asIs else .repaired,
+    some ({ n := n, deleteOld := a, deleteAll := b, variant := if v = 0 then .asIs else if v = 2 then .renamedOpen else .repaired,
             cleanOnRestart := cl }, r)
   | none => none
 
